@@ -377,6 +377,19 @@ def scenario_destructor(case, light=False):
         a, b = norm(w.call(e)), norm(t.call(e))
         if a != b:
             return ('stale-answer-survives:' + e, a, b), True
+    # whatever was looked up from inside the destructor is still watched: a
+    # later change of the required specification reaches every cached answer
+    if action not in ('rebase-interface',):
+        for x in (w, t):
+            x.I1.__bases__ = (x.X,)
+        for name, fn in DESTRUCTOR_ENTRIES.items():
+            a, b = norm(fn(w)), norm(fn(t))
+            if a != b:
+                return ('stale-after-later-specification-change:' + name, a, b), True
+        for e in ENTRIES:
+            a, b = norm(w.call(e)), norm(t.call(e))
+            if a != b:
+                return ('stale-after-later-specification-change:' + e, a, b), True
     return None, True
 
 
@@ -663,6 +676,11 @@ class SchedWorld(World):
 def make_harness(flavour, mutator, entries):
     def make():
         w = SchedWorld(flavour, extendors=(mutator in EXT_MUTATORS))
+        # the lookup object already watches other specifications when the
+        # threads start (its set of watched specifications is then walked by
+        # changed() while a lookup adds to it)
+        w.reg.lookup([w.X], w.P, '')
+        w.reg.subscriptions([w.I0], w.PN)
         bodies = []
         if mutator:
             bodies.append(lambda: MUTATORS[mutator](w))
